@@ -327,6 +327,10 @@ def enc_wwm(p, seed):
     if "HS" in opt:  # dropped by the reader
         dv["HS"] = (("ocean_time", "nbstation"), _arr(1.0 + np.arange(nt * ns).reshape(nt, ns), dt, bk), {"units": "m"})
     coords = {"ocean_time": ("ocean_time", times_for(nt))}
+    if p.get("acdims") == "dir_first" or p.get("dimcoords"):
+        # some writers store index coordinate variables for the spectral dimensions
+        coords["nfreq"] = ("nfreq", np.arange(nf))
+        coords["ndir"] = ("ndir", np.arange(1, nd + 1))
     ds = xr.Dataset(dv, coords=coords)
     ds = _finish(ds, bk)
     st = np.asarray(ac_st, dtype=np.float64)
